@@ -1,4 +1,5 @@
 import CV.Proofs.InvRunCode
+import CV.Proofs.InvDispRun
 /-
 C08 — run()/stop(): started once, everything queued is drained, stopped once.
 
@@ -322,5 +323,215 @@ example : (∀ y, y ≠ 0 → ((startRun s2 0).st.comp y).running = false) ∧ (
   have : ¬ y < s2.comps.length := by simp [s2]; omega
   show (s2.comp y).running = false
   rw [St.comp_ge this]; rfl
+
+/-! ### 7. "dispatched exactly once": conservation of queued events (machine level)
+
+The log entries are `F e …` (`fireEvent` appended event object `e` to a manager's `_EventQueue`) and
+`D e` (`_dispatcher` entered for `e`, handed over by `dispatchEvents`).  For a class of event ids
+`K : Nat → Bool` (`(· == e)`: one event object):
+  `firedCnt K log` / `dispCnt K log`   number of `F` / `D` entries of class `K`;
+  `queuedCnt K s`                      number of class-`K` items in the deques (`EQ.dequeCnt`) and batch
+                                       heaps (`EQ.heapCnt`) of ALL components (`register`'s `drainFrom`
+                                       moves items between two of them);
+  `d8pend K stack`                     1 iff the top frame is `.dispatcher _ e _` with `K e`: the event
+                                       `dispatchEvents` has just popped, one step before its `D`.
+Proofs: CV/Proofs/InvDispBase.lean, InvDisp.lean (conservation through all arms of `step`),
+InvDispLoc.lean (where the copies are; an event object is fired once), InvDispRun.lean. -/
+
+/-- hypothesis on the initial state for the conservation theorems: every `root` field is a valid
+    component id (a `fire` on a dangling root would log an `F` and queue nothing) and the state is
+    balanced: as many `F` as `D` + queued items, for every class of event ids (e.g. a fresh session:
+    empty log, empty queues - `initD_of_fresh`) -/
+def InitD (s0 : St) : Prop := ∀ K : Nat → Bool, DBal K 0 s0
+
+/-- fresh managers satisfy `InitD` -/
+theorem initD_of_fresh (s : St) (hroot : ∀ x, (s.comp x).root < s.comps.length) (hlog : s.log = [])
+    (hq : ∀ x, (s.comp x).eq.len = 0) : InitD s := by
+  intro K
+  refine ⟨hroot, ?_⟩
+  have : queuedCnt K s = 0 := (r8_queued_zero K s).mpr (fun y => r8_len_cnt K _ (hq y))
+  rw [hlog, this]
+  rfl
+
+/-- **Conservation.**  In every reachable configuration, for every class `K` of event ids: every
+    event ever appended to a manager's queue (`F`) is in exactly one place - handed to `_dispatcher`
+    (`D`), still in some manager's deque or batch heap (possibly another manager's than the one it was
+    fired on: `register` drains deques), or popped and about to be handed over (top frame).  Counted
+    with multiplicity: a `Timer` re-fires one event object.  Never two places, never none. -/
+theorem conservation {s0 : St} (hd : InitD s0) {c : Cfg} (hr : Reach s0 c) (K : Nat → Bool) :
+    firedCnt K c.st.log = dispCnt K c.st.log + queuedCnt K c.st + d8pend K c.stack :=
+  (d8_reach (hd K) c hr).bal.bal
+
+/-- for an event object fired once: exactly one of "dispatched", "queued", "in flight" -/
+theorem exactly_one_place {s0 : St} (hd : InitD s0) {c : Cfg} (hr : Reach s0 c) (e : Nat)
+    (h1 : firedCnt (· == e) c.st.log = 1) :
+    (dispCnt (· == e) c.st.log = 1 ∧ queuedCnt (· == e) c.st = 0 ∧ d8pend (· == e) c.stack = 0) ∨
+    (dispCnt (· == e) c.st.log = 0 ∧ queuedCnt (· == e) c.st = 1 ∧ d8pend (· == e) c.stack = 0) ∨
+    (dispCnt (· == e) c.st.log = 0 ∧ queuedCnt (· == e) c.st = 0 ∧ d8pend (· == e) c.stack = 1) := by
+  have := conservation hd hr (· == e)
+  omega
+
+/-- nothing is dispatched more often than it was fired -/
+theorem dispatched_le_fired {s0 : St} (hd : InitD s0) {c : Cfg} (hr : Reach s0 c) (K : Nat → Bool) :
+    dispCnt K c.st.log ≤ firedCnt K c.st.log := by
+  have := conservation hd hr K
+  omega
+
+/-- **A popped event cannot be dropped.**  `.dispatcher` frames (the call `dispatcher(event, …)` of
+    `dispatchEvents`) exist only as the TOP frame and only while no exception is pending: the step
+    after the pop executes `_dispatcher`'s entry (which logs the `D`), no unwinding can remove it -/
+theorem dispatcher_frame_on_top_only {s0 : St} (hd : InitD s0) {c : Cfg} (hr : Reach s0 c) :
+    (∀ f ∈ c.stack.tail, ∀ r e rem, f ≠ .dispatcher r e rem) ∧
+    (∀ r e rem k, c.stack = .dispatcher r e rem :: k → c.exn = none) := by
+  have h := d8_reach (hd (fun _ => true)) c hr
+  refine ⟨?_, ?_⟩
+  · intro f hf r e rem he
+    have := h.tail
+    simp only [d8plainAll, List.all_eq_true] at this
+    have := this f hf
+    rw [he] at this; cases this
+  · intro r e rem k hs
+    exact (h.head _ k hs rfl).1
+
+/-- **At the return of `run()`**: every event ever fired has been dispatched as often as it was
+    fired, except for copies that sit in the queue of ANOTHER manager (`x`'s own deque and heap are
+    empty: they contribute 0 to `queuedCnt`) -/
+theorem returns_all_dispatched {s0 : St} (hi : Init s0) (hd : InitD s0) {c : Cfg} (hr : Reach s0 c) {x : Nat}
+    {k : List Frame} (hs : c.stack = .runFin x :: k) (hx : c.exn = none) (K : Nat → Bool) :
+    firedCnt K c.st.log = dispCnt K c.st.log + queuedCnt K c.st ∧ (c.st.comp x).eq.cntK K = 0 := by
+  have h1 := conservation hd hr K
+  rw [hs] at h1
+  have hp : d8pend K (Frame.runFin x :: k) = 0 := rfl
+  rw [hp] at h1
+  exact ⟨h1, r8_len_cnt K _ (returns_drained hi hr hs hx).2.2⟩
+
+/-- … hence, when no other manager holds queued events (one tree, nothing left on detached
+    components): fired = dispatched, for every class of events -/
+theorem returns_fired_eq_dispatched {s0 : St} (hi : Init s0) (hd : InitD s0) {c : Cfg} (hr : Reach s0 c) {x : Nat}
+    {k : List Frame} (hs : c.stack = .runFin x :: k) (hx : c.exn = none)
+    (hother : ∀ y, y ≠ x → (c.st.comp y).eq.len = 0) (K : Nat → Bool) :
+    firedCnt K c.st.log = dispCnt K c.st.log := by
+  have h := returns_all_dispatched hi hd hr hs hx K
+  have : queuedCnt K c.st = 0 := by
+    rw [r8_queued_zero]
+    intro y
+    by_cases hy : y = x
+    · subst hy; exact h.2
+    · exact r8_len_cnt K _ (hother y hy)
+  omega
+
+/-- **Events queued on `x` are dispatched before `run()` returns.**  From a reachable configuration
+    `c1` in which every queued copy of the class-`K` events (ids `< nb`, none a `Timer`'s event object)
+    sits in `x`'s own queue and the log has `fc` `F` entries for them (`DLoc`): if `x.register(…)` is
+    not executed in the next `j` steps and then `x.run()` is about to return normally, the log has
+    exactly `fc` `F` and exactly `fc` `D` entries of class `K`: nothing was fired again, everything
+    was dispatched. -/
+theorem queued_on_x_dispatched_by_return {s0 : St} (hi : Init s0) (hd : InitD s0) {c1 : Cfg} (hr : Reach s0 c1)
+    {K : Nat → Bool} {x nb fc : Nat} (h1 : DLoc K x nb fc c1.st)
+    (hnoreg : ∀ i p k, (runN i c1).stack ≠ .register x p :: k)
+    (j : Nat) {k : List Frame} (hfin : (runN j c1).stack = .runFin x :: k) (hxn : (runN j c1).exn = none) :
+    firedCnt K (runN j c1).st.log = fc ∧ dispCnt K (runN j c1).st.log = fc :=
+  r8_tracked hi hd hr h1 hnoreg j hfin hxn
+
+/-- **`started` is dispatched exactly once.**  `x.run()` on a root `x` (`hroot`), `x.register(…)` not
+    executed during the run (`hnoreg`): when `run()` returns normally, the `started` event object of
+    this run (id `c0.st.evs.length`, created by the first step) has exactly one `F` and exactly one
+    `D` entry in the log.
+    PARTIAL.  Full statement: without `hroot`, `hnoreg`.  `hnoreg` is necessary: see
+    `dispatched_once_witness` (a handler that registers the running manager under another one moves
+    its deque away).  `hroot` is not known to be necessary (for a non-root `x` the event goes to the
+    root's queue, which `x.tick()` flushes); the proof tracks the event in `x`'s own queue. -/
+theorem started_dispatched_once_partial {s0 : St} (hi : Init s0) (hd : InitD s0) {c0 : Cfg} (hr : Reach s0 c0)
+    {x : Nat} (hs : c0.stack = [.run x]) (hx : c0.exn = none) (hroot : c0.st.rootOf x = x)
+    (hnoreg : ∀ i p k, (runN i c0).stack ≠ .register x p :: k)
+    (n : Nat) {k : List Frame} (hfin : (runN n c0).stack = .runFin x :: k) (hxn : (runN n c0).exn = none) :
+    firedCnt (· == c0.st.evs.length) (runN n c0).st.log = 1 ∧
+    dispCnt (· == c0.st.evs.length) (runN n c0).st.log = 1 :=
+  r8_started hi hd hr hs hx hroot hnoreg n hfin hxn
+
+/-- **`stopped` is dispatched exactly once.**  If step `m` of the run executes an effective
+    `x.stop(code)` (`x` running; by `stopped_once` there is exactly one such step) with `x` its own
+    root, and `x.register(…)` is not executed during the run: when `run()` returns normally, the
+    `stopped` event object fired by that step (id = `|evs|` before the step) has exactly one `F` and
+    exactly one `D` entry.  PARTIAL for the same reason as `started_dispatched_once_partial`. -/
+theorem stopped_dispatched_once_partial {s0 : St} (hi : Init s0) (hd : InitD s0) {c0 : Cfg} (hr : Reach s0 c0)
+    {x : Nat} (hnoreg : ∀ i p k, (runN i c0).stack ≠ .register x p :: k)
+    (m : Nat) {code : Code} {k' : List Frame} (hst : (runN m c0).stack = .stopMgr x code :: k')
+    (hxm : (runN m c0).exn = none) (hrun : ((runN m c0).st.comp x).running = true)
+    (hroot : (runN m c0).st.rootOf x = x)
+    (n : Nat) (hmn : m < n) {k : List Frame} (hfin : (runN n c0).stack = .runFin x :: k)
+    (hxn : (runN n c0).exn = none) :
+    firedCnt (· == (runN m c0).st.evs.length) (runN n c0).st.log = 1 ∧
+    dispCnt (· == (runN m c0).st.evs.length) (runN n c0).st.log = 1 :=
+  r8_stopped hi hd hr hnoreg m hst hxm hrun hroot n hmn hfin hxn
+
+/-- two managers; the `started` handler of manager 0 calls `self.stop()` and then
+    `self.register(manager 1)` -/
+def sW : St := {
+  comps := [{ parent := 0, root := 0, htab := [(some Name.started, 0)] }, { parent := 1, root := 1 }],
+  hs := [{ owner := 0, names := [Name.started], chan := none, kind := .user 0 }],
+  progs := [[.stopMgr 0 none, .reg 0 1]] }
+
+def atRegister (c : Cfg) (x p : Nat) : Bool :=
+  match c.stack, c.exn with
+  | .register y q :: _, none => y == x && q == p
+  | _, _ => false
+
+/-- the excluded case `hnoreg` really fails: `run 0` on `sW` executes `0.register(1)` at step 12
+    (which drains manager 0's deque, holding the freshly fired `stopped`, into manager 1's) and
+    returns at step 49 with `stopped` (event 2) fired once and never dispatched; `started` (event 0)
+    was dispatched once -/
+theorem dispatched_once_witness :
+    atRegister (runN 12 (startRun sW 0)) 0 1 = true ∧
+    atRunFin (runN 49 (startRun sW 0)) 0 = true ∧
+    Entry.fire 2 Name.stopped [.star] 0 ∈ (runN 49 (startRun sW 0)).st.log ∧
+    firedCnt (· == 2) (runN 49 (startRun sW 0)).st.log = 1 ∧
+    dispCnt (· == 2) (runN 49 (startRun sW 0)).st.log = 0 ∧
+    dispCnt (· == 0) (runN 49 (startRun sW 0)).st.log = 1 := by
+  decide +kernel
+
+/-! ### non-vacuity (section 7) -/
+
+example : InitD s1 := initD_of_fresh s1 (by
+    intro x
+    match x with
+    | 0 => decide
+    | n + 1 =>
+      have : ¬ (n + 1) < s1.comps.length := by simp [s1]
+      rw [St.comp_ge this]; decide) rfl
+  (by intro x; match x with | 0 => rfl | n + 1 => rfl)
+example : InitD s2 := initD_of_fresh s2 (by
+    intro x
+    match x with
+    | 0 => decide
+    | n + 1 =>
+      have : ¬ (n + 1) < s2.comps.length := by simp [s2]
+      rw [St.comp_ge this]; decide) rfl
+  (by intro x; match x with | 0 => rfl | n + 1 => rfl)
+
+/-- `exactly_one_place`: in the run of `s2` the `started` event (id 0) is fired once -/
+example : firedCnt (· == 0) (runN 58 (startRun s2 0)).st.log = 1 := by decide +kernel
+
+/-- `started_dispatched_once_partial` / `stopped_dispatched_once_partial` /
+    `queued_on_x_dispatched_by_return`: the run of `s2` (handler of `started` calls `self.stop(3)`):
+    root, no `.register` frame in any of its 58 steps, the effective stop at some step `m < 58` with
+    `x` running and its own root, `.runFin 0` at step 58 … -/
+def noRegister (c : Cfg) : Bool :=
+  match c.stack with
+  | .register _ _ :: _ => false
+  | _ => true
+def atStop (c : Cfg) (x : Nat) : Bool :=
+  match c.stack, c.exn with
+  | .stopMgr y _ :: _, none => y == x && (c.st.comp x).running && c.st.rootOf x == x
+  | _, _ => false
+example : (startRun s2 0).st.rootOf 0 = 0 ∧ ((List.range 59).all fun i => noRegister (runN i (startRun s2 0))) = true ∧
+    ((List.range 58).any fun m => atStop (runN m (startRun s2 0)) 0) = true ∧
+    atRunFin (runN 58 (startRun s2 0)) 0 = true := by decide +kernel
+/-- … and both conclusions, evaluated: `started` = event 0, `stopped` = event 2 -/
+example : dispCnt (· == 0) (runN 58 (startRun s2 0)).st.log = 1 ∧
+    dispCnt (· == 2) (runN 58 (startRun s2 0)).st.log = 1 := by decide +kernel
+/-- `DLoc` is satisfiable: after the first step of that run, for `K = {0}` -/
+example : DLoc (· == 0) 0 1 1 (step (startRun s2 0)).st :=
+  r8_runBegin s2 0 rfl (by intro y; match y with | 0 => rfl | n + 1 => rfl) rfl (by intro tm h; cases h)
 
 end CV.C08
